@@ -304,6 +304,9 @@ func (p *Program) solveOne(ob *Obligation, cfg SolverCfg, idx int) {
 	}
 	os.WriteFile(fz, []byte(sz), 0o644)
 	needCVC := true
+	if ob.Vacuity && cfg.TimeoutS > 3 {
+		cfg.TimeoutS = 3 // a guard that cannot be decided quickly is not a failure
+	}
 	to := time.Duration(cfg.TimeoutS) * time.Second
 	ctx, cancel := context.WithTimeout(context.Background(), to+2*time.Second)
 	defer cancel()
